@@ -125,10 +125,16 @@ def annotate_fn(item_text, name, c):
             new = mm.expand(rw['to']) if rw.get('expand') else rw['to']
             edits.append(('replace', a, b, '/*@X<*/%s/*@X:%s>*/' % (new, item_text[a:b])))
     for ins in c.get('inserts', []):
-        pat = ins.get('after') or ins['before']
-        hits = [mm for mm in re.finditer(pat, msk[body_open:])]
+        pats = ins.get('after') or ins['before']
+        if isinstance(pats, str):
+            pats = [pats]
+        hits = []
+        for pat in pats:   # alternatives: the first anchor that matches exactly once is used
+            hits = [mm for mm in re.finditer(pat, msk[body_open:])]
+            if len(hits) == 1:
+                break
         if len(hits) != 1:
-            raise ScanError('ghost insert anchor %r in %s: %d matches' % (pat, name, len(hits)))
+            raise ScanError('ghost insert anchor %r in %s: %d matches' % (pats, name, len(hits)))
         at = hits[0].end() if ins.get('after') else hits[0].start()
         edits.append((body_open + at, '\n' + ghost(ins['text']) + '\n'))
     for ins in c.get('inserts_all', []):
